@@ -64,30 +64,39 @@ func checkColumnsCode(w *World, r *Result) {
 		Undecided("newColumnsCode: no loop over columns")
 	}
 	pos := w.Pos(fl.rs.Pos())
-	// guards skipped first
-	guards := leadingGuards(info, fl.rs.Body, fl.subst)
-	r.cond(len(guards) == 1 && strings.Contains(guards[0], "IsSQLGuard()"), "AGR-C05a", fi.Name, "guards are excluded from CRUD", pos, "the loop starts by skipping exactly the guard columns", "the column loop's leading filter is {"+strings.Join(guards, ", ")+"}, not exactly the guard test: guard columns enter the statements or real columns are dropped")
-	// groups
+	// every list of the loop is reached under a common condition (the guard skip) and, for the no-primary group, one
+	// more; conditions are canonical (reachConds), so `if c {continue}; append` and `if !c {append}` read alike
 	type app struct {
 		target string
 		conds  []string
 		a      *ast.AssignStmt
 	}
 	var apps []app
+	common := map[string]int{}
 	for _, a := range appendStmts(info, fl.rs.Body, "") {
-		var cs []string
-		for _, c := range pathCondsNoLoop(fi, a) {
-			if c.exit != nil {
-				continue
-			}
-			s := render(info, c.expr, fl.subst)
-			if !c.truth {
-				s = "!(" + s + ")"
-			}
-			cs = append(cs, s)
+		cs := reachConds(info, fi.Decl, fl.rs, a, fl.subst)
+		for _, c := range cs {
+			common[c]++
 		}
 		apps = append(apps, app{es(a.Lhs[0]), cs, a})
 	}
+	var guards []string
+	for c, n := range common {
+		if n == len(apps) {
+			guards = append(guards, c)
+		}
+	}
+	sort.Strings(guards)
+	for i := range apps {
+		var rest []string
+		for _, c := range apps[i].conds {
+			if common[c] != len(apps) {
+				rest = append(rest, c)
+			}
+		}
+		apps[i].conds = rest
+	}
+	r.cond(len(guards) == 1 && strings.HasPrefix(guards[0], "!(") && strings.Contains(guards[0], "IsSQLGuard()"), "AGR-C05a", fi.Name, "guards are excluded from CRUD", pos, "every list grows only for the columns that are not guards, and for all of them", "the lists of the column loop are built under {"+strings.Join(guards, ", ")+"}, not exactly 'not a guard': guard columns enter the statements or real columns are dropped")
 	full, nop := map[string]int{}, map[string]int{}
 	other := []string{}
 	var nopCond string
@@ -124,7 +133,7 @@ func checkColumnsCode(w *World, r *Result) {
 	r.cond(good, "AGR-C05a", fi.Name, "two lock-step groups of lists", pos, "all-columns group {"+keys(full)+"} and no-primary group {"+keys(nop)+"}: each list grows once per kept column (resp. once per non-primary column)", "the per-column lists do not form two lock-step groups (irregular: "+strings.Join(other, ",")+"): column names, placeholders and values can differ in length or order")
 	// AGR-C05e: the no-primary condition is `$i != primaryIndex` with primaryIndex := ta.Primary(), ranging ta.Columns
 	primOK := false
-	if m := regexp.MustCompile(`^\$i != (\w+)$`).FindStringSubmatch(nopCond); m != nil {
+	if m := regexp.MustCompile(`^!\(\$i == (\w+)\)$`).FindStringSubmatch(nopCond); m != nil {
 		// variable defined from X.Primary(), loop over X.Columns
 		ast.Inspect(fi.Decl.Body, func(x ast.Node) bool {
 			if as, ok := x.(*ast.AssignStmt); ok && len(as.Lhs) == 1 && es(as.Lhs[0]) == m[1] && len(as.Rhs) == 1 {
@@ -144,7 +153,7 @@ func checkColumnsCode(w *World, r *Result) {
 	for _, a := range apps {
 		call := a.a.Rhs[0].(*ast.CallExpr)
 		sp, ok := call.Args[1].(*ast.CallExpr)
-		if !ok || fullName(calleeOf(info, sp)) != "fmt.Sprintf" {
+		if !ok || !isSprintf(info, &sp) {
 			continue
 		}
 		format, vas := verbArgs(info, sp)
@@ -242,7 +251,7 @@ func checkStatements(w *World, r *Result) {
 		info := fi.Pkg.TypesInfo
 		ast.Inspect(fi.Decl.Body, func(x ast.Node) bool {
 			call, ok := x.(*ast.CallExpr)
-			if !ok || fullName(calleeOf(info, call)) != "fmt.Sprintf" {
+			if !ok || !isSprintf(info, &call) {
 				return true
 			}
 			format, vas := verbArgs(info, call)
@@ -462,7 +471,7 @@ func checkStatements(w *World, r *Result) {
 		}
 		ast.Inspect(rs.Body, func(y ast.Node) bool {
 			call, ok := y.(*ast.CallExpr)
-			if !ok || fullName(calleeOf(cinfo, call)) != "fmt.Sprintf" {
+			if !ok || !isSprintf(cinfo, &call) {
 				return true
 			}
 			format, vas := verbArgs(cinfo, call)
@@ -510,11 +519,14 @@ func listsInLockstep(fi *FuncInfo, a, b string) bool {
 			return true
 		}
 		na, nb, numbered := 0, 0, true
-		for _, ap := range appendStmts(info, rs.Body, "") {
-			switch es(ap.Lhs[0]) {
+		for _, ac := range accumStmts(info, fi.Decl, rs) {
+			if len(ac.values) != 1 {
+				continue
+			}
+			switch ac.target {
 			case a:
 				na++
-				if sp, ok := ap.Rhs[0].(*ast.CallExpr).Args[1].(*ast.CallExpr); ok {
+				if sp, ok := ast.Unparen(ac.values[0]).(*ast.CallExpr); ok {
 					_, vas := verbArgs(info, sp)
 					for _, va := range vas {
 						if strings.HasSuffix(va.verb, "d") && va.arg != nil {
@@ -660,17 +672,21 @@ func checkAndJoinedFragments(w *World, r *Result, rel string) int {
 		if len(joined) == 0 {
 			continue
 		}
-		for _, as := range appendStmts(info, fi.Decl.Body, "") {
-			id := identOf(as.Lhs[0])
+		for _, ac := range allAccums(info, fi.Decl) {
+			var id *ast.Ident
+			if ix, ok := ac.stmt.Lhs[0].(*ast.IndexExpr); ok {
+				id = identOf(ix.X)
+			} else {
+				id = identOf(ac.stmt.Lhs[0])
+			}
 			if id == nil || !joined[objOf(info, id)] {
 				continue
 			}
-			call := as.Rhs[0].(*ast.CallExpr)
-			for _, a := range call.Args[1:] {
+			for _, a := range ac.values {
 				text := ""
 				if tv := info.Types[a]; tv.Value != nil && tv.Value.Kind() == constant.String {
 					text = constant.StringVal(tv.Value)
-				} else if sp, ok := ast.Unparen(a).(*ast.CallExpr); ok && fullName(calleeOf(info, sp)) == "fmt.Sprintf" {
+				} else if sp, ok := ast.Unparen(a).(*ast.CallExpr); ok && isSprintf(info, &sp) {
 					text, _ = verbArgs(info, sp)
 				} else {
 					continue
